@@ -202,7 +202,17 @@ func (g *sliceGen) step() {
 			}
 			g.steps["append-spread"]++
 			return
-		case 7: // copy
+		case 7: // copy (between variables, or between overlapping views of one variable)
+			if !sa.isNil && sa.len >= 2 && rng.Intn(2) == 0 {
+				k := 1 + rng.Intn(sa.len-1)
+				if rng.Intn(2) == 0 {
+					g.line("copy(%s[%d:], %s)", a, k, a)
+				} else {
+					g.line("copy(%s, %s[%d:])", a, a, k)
+				}
+				g.steps["copy-overlap"]++
+				return
+			}
 			b := g.pick()
 			g.line("copy(%s, %s)", a, b)
 			g.steps["copy"]++
